@@ -71,6 +71,10 @@ pub struct Scn {
     /// local-style id of one transform must not leak into another one's output
     #[serde(default)]
     pub per_request_clock: bool,
+    /// also run the command in --watch mode over this scenario's first documents, one save
+    /// after the other in one process (outside the turnstile: it waits in real time)
+    #[serde(default)]
+    pub watch: bool,
 }
 
 const STEP_BUDGET: u64 = 2_000_000;
@@ -643,6 +647,7 @@ impl Engine for C07 {
             entropy: Rng::sub(rs, "entropy").next_u64(),
             clock_ns: 1_700_000_000_000_000_000 + Rng::sub(rs, "clock").below(86_400_000_000_000),
             per_request_clock: Rng::sub(rs, "request-clock").chance(1, 2),
+            watch: index % 16 == 9 || (tier == Tier::Thorough && index % 16 == 1),
         };
         serde_json::to_value(scn).unwrap()
     }
@@ -744,6 +749,103 @@ impl Engine for C07 {
                     }
                 }
             }
+        }
+
+        // ---- the command in --watch mode: a long first save, then this scenario's documents,
+        // all through ONE process; what the output file holds after each save is what a
+        // one-shot run gives for that save (or, for a failing save, what it held before)
+        if scn.watch {
+            let cfg = scn.cfgs[0].clone();
+            let long = {
+                let mut s = String::from("<svg>\n");
+                for i in 0..60 {
+                    s.push_str(&format!("  <rect xy=\"{} {}\" wh=\"9 4\" text=\"long {i}\" class=\"d-fill-red\"/>\n", (i % 8) * 12, (i / 8) * 7));
+                }
+                s.push_str("</svg>\n");
+                Doc::from_str(&s)
+            };
+            let mut saves: Vec<Doc> = vec![long];
+            for d in scn.docs.iter().filter(|d| d.as_str().is_some()).take(3) {
+                if saves.last().map(|l| l.0 != d.0).unwrap_or(true) {
+                    saves.push(d.clone());
+                }
+            }
+            // all saves are padded to one length (blank lines at the end), so that saving is one
+            // overwrite in place and the watching command never reads a half-saved file
+            let width = saves.iter().map(|d| d.0.len()).max().unwrap_or(0) + 1;
+            let saves: Vec<Doc> = saves
+                .into_iter()
+                .map(|d| {
+                    let mut b = d.0;
+                    while b.len() < width {
+                        b.push(b'\n');
+                    }
+                    Doc(b)
+                })
+                .collect();
+            // (a save which renders to nothing, or to what is there already, shows nothing)
+            let mut kept: Vec<Doc> = Vec::new();
+            let mut expect: Vec<Outcome> = Vec::new();
+            for d in saves {
+                let e = solo(&d, &cfg, None);
+                let shows = match (&e, expect.iter().rev().find(|p| matches!(p, Outcome::Ok(_)))) {
+                    (Outcome::Ok(b), _) if b.is_empty() => false,
+                    (Outcome::Ok(b), Some(Outcome::Ok(p))) => b != p,
+                    (Outcome::Ok(_), _) | (Outcome::Err(_), _) => true,
+                    _ => false,
+                };
+                if shows {
+                    kept.push(d);
+                    expect.push(e);
+                }
+            }
+            let saves = kept;
+            let bytes: Vec<Vec<u8>> = saves.iter().map(|d| d.0.clone()).collect();
+            let dir = env.scratch.join("c07").join("watch");
+            match watch_session(env, cfg.to_cli_args(), &dir, &bytes, None, scn.clock_ns, Duration::from_secs(15)) {
+                Err(e) => {
+                    res.harness_error = Some(format!("watch session: {e}"));
+                    return res;
+                }
+                Ok(obs) => {
+                    res.stats.frontend("cli-watch");
+                    res.stats.probe("watch_session_over_several_saves");
+                    let local = |d: &Doc| wants_local_styles(&d.0, &cfg);
+                    let mut before: Option<Vec<u8>> = None;
+                    for (i, (o, e)) in obs.iter().zip(expect.iter()).enumerate() {
+                        res.stats.evaluations += 1;
+                        let what = match e {
+                            Outcome::Ok(gb) if gb.is_empty() => None, // (nothing to show for an empty rendering)
+                            Outcome::Ok(gb) => {
+                                let same = o.out.as_ref().map(|f| same_outcome_modulo_local_id(&Outcome::Ok(f.clone()), &Outcome::Ok(gb.clone()), local(&saves[i]))).unwrap_or(false);
+                                if same {
+                                    None
+                                } else if !o.changed && !o.failure_reported {
+                                    Some(("no-render", format!("save {i}: the watching command neither rendered nor reported a failure within 15 s")))
+                                } else {
+                                    Some(("output-differs", format!("save {i}: the output file holds {:?} bytes, a one-shot transform of the same save gives {} bytes", o.out.as_ref().map(|b| b.len()), gb.len())))
+                                }
+                            }
+                            Outcome::Err(_) => {
+                                if o.out != before {
+                                    Some(("output-touched", format!("save {i} fails to transform, but the output file changed")))
+                                } else if !o.failure_reported {
+                                    Some(("failure-not-reported", format!("save {i} fails to transform, the watching command reported nothing")))
+                                } else {
+                                    None
+                                }
+                            }
+                            _ => None,
+                        };
+                        if let Some((k, detail)) = what {
+                            res.violation("watch/agreement", &format!("c07:watch:{k}"), format!("svgdx --watch, one process over {} saves; {detail}", saves.len()));
+                            break;
+                        }
+                        before = o.out.clone();
+                    }
+                }
+            }
+            let _ = std::fs::remove_dir_all(&dir);
         }
 
         // the real server (if any request wants it) is started from this thread: a child is
